@@ -126,6 +126,12 @@ def has_bare_cr(doc):
     return re.search(r"\r(?!\n)", doc) is not None
 
 
+def model_batch(ctx, lines):
+    """The Lean driver, run from a private copy: other checks relink gvdriver concurrently and
+    the binary is briefly absent while they do."""
+    return common.batch([ctx.c29_driver], lines)
+
+
 def canon_impl(r):
     if r is not None and r.startswith("PANIC "):
         msg = common.unhex(r[6:])
@@ -175,7 +181,7 @@ def conversions(ctx):
     ctx.log("conversions: %d documents, %d o2p/whole requests" % (len(docs), len(lines)))
     impl = [canon_impl(r) for r in ctx.garden_batch(lines)]
     ctx.log("implementation answered")
-    model = ctx.model_batch(lines)
+    model = model_batch(ctx, lines)
     ctx.log("model answered")
     res = {}
     for m_, i, m in zip(meta, impl, model):
@@ -213,7 +219,7 @@ def conversions(ctx):
             lines2.append("lsp_lc2o %s %d %d" % (h, l, c))
             meta2.append(("lc2o", doc, l, c))
     impl2 = [canon_impl(r) for r in ctx.garden_batch(lines2)]
-    model2 = ctx.model_batch(lines2)
+    model2 = model_batch(ctx, lines2)
     for m_, i, m in zip(meta2, impl2, model2):
         if i != m:
             ctx.disagree(m_[0], {"doc": m_[1], "args": list(m_[2:])}, m, i)
@@ -319,7 +325,7 @@ def applier_vs_model(ctx, docs, extra):
         cases.append((doc, sl, sc, el, ec, rng.choice(["", "Q", "é\n", "\r\n"])))
     lines = ["lsp_apply %s %d %d %d %d %s" % (common.hexs(d), sl, sc, el, ec, common.hexs(t))
              for d, sl, sc, el, ec, t in cases]
-    model = ctx.model_batch(lines)
+    model = model_batch(ctx, lines)
     bad = 0
     for (d, sl, sc, el, ec, t), m in zip(cases, model):
         out, prob = apply_edits(d, [{"range": {"start": {"line": sl, "character": sc},
@@ -407,7 +413,7 @@ def selections(rng, src, given, k):
     toks = [(m.start(), m.end(), m.group(0)) for m in TOKEN.finditer(src) if not m.group(0).startswith("//")]
     out = []
     for s, e in given:
-        out += [(s, e), (s, max(s, e - 1))]
+        out += [(s, e)]
     cand = []
     for i, (s, e, t) in enumerate(toks):
         if re.match(r"[A-Za-z_0-9\"]", t) and t not in KEYWORDS:
@@ -554,7 +560,8 @@ def run_program(ctx, job):
             seen_edits.extend(res or [])
             r2 = ctx.garden_verif_format(src)
             results.append(("format", (), lsp, r2, prob))
-            if "\r" not in src and src.endswith("\n") and "// args: " not in src:
+            if "\r" not in src and src.endswith("\n") and "// args: " not in src and (
+                    not ctx.quick() or idx % 3 == 0):
                 st, so2 = cli(ctx, ["format", path])
                 if st in ("ok", "refused"):
                     results.append(("format-cli", (), lsp, so2 if st == "ok" else None, prob))
@@ -630,7 +637,7 @@ def server_edits(ctx):
         for sd in seeds:
             sub = sd[0].split("/")[0]
             per[sub] = per.get(sub, 0) + 1
-            if sub not in ("format", "check_fix") or per[sub] % 4 == 1:
+            if sub not in ("format", "check_fix") or per[sub] % 8 == 1:
                 keep.append(sd)
         seeds = keep
     for name, body, sels in seeds:
@@ -644,10 +651,10 @@ def server_edits(ctx):
     variants = []
     for name, src, sels in programs:
         variants.append((name, src, sels))
-    for name, src, sels in rng.sample(programs, min(len(programs), ctx.scale(5, 40))):
+    for name, src, sels in rng.sample(programs, min(len(programs), ctx.scale(4, 40))):
         pre = "// é€\U0001F600\n"
         variants.append((name + "+ucomment", pre + src, [(s + len(pre), e + len(pre)) for s, e in sels]))
-    for name, src, sels in rng.sample(programs, min(len(programs), ctx.scale(5, 30))):
+    for name, src, sels in rng.sample(programs, min(len(programs), ctx.scale(4, 30))):
         def shift(i, src=src):
             return i + src[:i].count("\n")
         variants.append((name + "+crlf", src.replace("\n", "\r\n"), [(shift(s), shift(e)) for s, e in sels]))
@@ -660,8 +667,8 @@ def server_edits(ctx):
             variants.append((name + "+barecr", src[:k] + "\r" + src[k + 1:], []))
     d = ctx.scratch("lsp")
     jobs = []
-    n_sel = ctx.scale(2, 12)
-    n_ren = ctx.scale(3, 10)
+    n_sel = ctx.scale(1, 12)
+    n_ren = ctx.scale(2, 10)
     for idx, (name, src, sels) in enumerate(variants):
         ss = selections(rng, src, sels, n_sel)
         occ = ident_occurrences(src)
@@ -728,8 +735,12 @@ def server_edits(ctx):
 def run(ctx):
     # `format` through the hook (format::format on the exact text; `garden format FILE` first
     # normalises line endings through remove_testing_footer, so it is only used on clean files)
-    fmt = ctx.garden_verif()
+    import shutil
     import threading
+    ctx.c29_driver = os.path.join(ctx.scratch("bin"), "gvdriver")
+    with common.Lock("lake"):
+        shutil.copy2(common.DRIVER, ctx.c29_driver)
+    fmt = ctx.garden_verif()
     lock = threading.Lock()
 
     def garden_verif_format(src):
@@ -747,9 +758,10 @@ def run(ctx):
                 "document has a multi-byte character, CR or LF (conversions); the edit changes the text (server)."
                 % ctx.scale(4, 5))
     # the server part first: it forks ~1000 short processes, which is slow once this process is large
-    extra = server_edits(ctx)
+    only = os.environ.get("C29_ONLY", "")      # development aid: "server" or "conv"
+    extra = server_edits(ctx) if only != "conv" else []
     ctx.log("server edits done: %d cases" % ctx.evaluations)
-    docs = conversions(ctx)
+    docs = conversions(ctx) if only != "server" else [""]
     ctx.log("conversions done: %d cases" % ctx.evaluations)
     applier_vs_model(ctx, docs, extra[:ctx.scale(3000, 20000)])
     fmt.close()
